@@ -297,7 +297,11 @@ func runC06(c *Ctx) {
 		"a failing step must be followed by exactly one ErrorResponse and nothing else, ReadyForQuery may only be sent by Sync, a non-nil error that is not a transport/malformed-message error may not be returned without an ErrorResponse (silent drop), and a nil return requires the complete designated reply (no silence). Replies leave at Writer.End without buffering (C02.R1), i.e. without waiting for further input. " +
 		"Known findings on this tree (listed in known_findings.jsonl, one per ErrorCode call site): ErrorCode appends its own ReadyForQuery in extended arms, and no discard-until-Sync state exists. Not decided: DataRow contents; custom cache implementations."
 	R.Assumptions = []string{"StatementCache / PortalCache are the library's default implementations (user caches are out of scope)", "callbacks reach the connection only through the DataWriter"}
+	R.Explanation += " (R4) replies are delivered without waiting for further client input: only Writer.End writes to the connection, the session writer wraps the connection returned by Handshake directly (no buffering layer), and nothing outside pkg/buffer touches the writer's sink or frame (rules shared with C02.R1)."
 	R.Trusted = []string{"go/types + go/ssa", "designated-reply table from the protocol documentation (internal/rules/c06.go)"}
+	// R4: replies are delivered when they are produced - Writer.End writes each message to the connection itself, the
+	// session writer wraps the connection directly (no buffering layer, nothing else owns the sink)
+	defer c.writeThrough("C06.R4")
 	R.Exhaustive = true
 
 	hc := c.mustMethod("C06.R1", "wire", "Session", "handleCommand")
